@@ -18,7 +18,6 @@ import (
 	"cmp"
 	"log/slog"
 	"net/http"
-	"strconv"
 	"time"
 )
 
@@ -59,8 +58,8 @@ func heuristicFreshness(h http.Header, date time.Time) time.Duration {
 	if !ok || !lastMod.Before(date) {
 		return 0
 	}
-	delta := date.Sub(lastMod)
-	return time.Duration(float64(delta) * 0.1).Round(time.Second)
+	// At most 10% of the interval: truncate, never round up.
+	return date.Sub(lastMod) / 10
 }
 
 // calculateCurrentAge implements RFC9111 §4.2.3 for calculating the current age of a cached response
@@ -70,22 +69,33 @@ func calculateCurrentAge(
 	h http.Header,
 	date, requestTime, responseTime time.Time,
 ) *Age {
-	ageVal := 0
-	if ageStr := h.Get("Age"); ageStr != "" {
-		ageVal, _ = strconv.Atoi(ageStr)
-	}
+	// An invalid Age field is ignored; a huge one is capped instead of wrapping around.
+	ageVal, _ := parseDeltaSeconds(h.Get("Age"))
 	apparentAge := max(responseTime.Sub(date), 0)
 	responseDelay := max(responseTime.Sub(requestTime), 0)
-	correctedAgeValue := time.Duration(ageVal)*time.Second + responseDelay
+	correctedAgeValue := SatAdd(ageVal, responseDelay)
 	correctedInitialAge := max(apparentAge, correctedAgeValue)
 	residentTime := max(clock.Since(responseTime), 0)
 	return &Age{
-		Value:     correctedInitialAge + residentTime,
+		Value:     SatAdd(correctedInitialAge, residentTime),
 		Timestamp: clock.Now(),
 	}
 }
 
 const maxDuration = 1<<63 - 1
+
+// SatAdd returns a+b, saturating at the bounds of [time.Duration] instead of
+// wrapping around.
+func SatAdd(a, b time.Duration) time.Duration {
+	switch c := a + b; {
+	case b > 0 && c < a:
+		return maxDuration
+	case b < 0 && c > a:
+		return -maxDuration - 1
+	default:
+		return c
+	}
+}
 
 // FreshnessCalculator describes the interface implemented by types that can
 // calculate the freshness of a cached response based on request and response
@@ -137,11 +147,13 @@ func (f *freshnessCalculator) CalculateFreshness(
 
 	// Freshness lifetime (private cache: ignore s-maxage)
 	usefulLife := time.Duration(0)
-	if maxAge, ok := resCC.MaxAge(); ok && maxAge >= 0 {
-		usefulLife = maxAge // Response is fresh for max-age seconds
-	}
-
-	if usefulLife == 0 {
+	if resCC.MaxAgePresent() {
+		// max-age takes precedence over Expires and heuristics whatever its
+		// value (RFC 9111 §4.2.1); with an invalid one the response is stale.
+		if maxAge, ok := resCC.MaxAge(); ok {
+			usefulLife = maxAge // Response is fresh for max-age seconds
+		}
+	} else {
 		expires, found, valid := entry.ExpiresHeader()
 		switch {
 		case valid && expires.After(date):
@@ -172,7 +184,7 @@ func (f *freshnessCalculator) CalculateFreshness(
 
 	isStale := currentAge.Value >= usefulLife
 	// If max-stale present, allow extra staleness
-	if isStale && maxStale > 0 && currentAge.Value < max(usefulLife+maxStale, maxStale) {
+	if isStale && maxStale > 0 && currentAge.Value < SatAdd(usefulLife, maxStale) {
 		isStale = false
 	}
 
